@@ -192,6 +192,33 @@ static void exec_line(char *line) {
   } else if (!strcmp(w[0], "ckpt") && kv) {
     if (EV) fprintf(EV, "# %s\n", copy);
     iwrc rc = iwal_test_checkpoint(kv); api = 1; printf("ckpt %s", rcname(rc)); tail_status();
+  } else if (!strcmp(w[0], "raw") && n >= 2 && kv && the_wal()) {
+    // raw <kind> ...: the data listener called directly (no KV operation): events iwkv itself never or rarely produces —
+    // payloads that fill the buffer exactly, headers that just fit / just do not fit, WBCOPY, onsynced.  `fitK` as a length means
+    // "what makes the payload fill the buffer exactly" + K (K may be negative).
+    struct iwal *wal = the_wal();
+    if (EV) fprintf(EV, "# %s\n", copy);
+    iwrc rc = 0;
+    long room = (long) wal->bufsz - (long) wal->bufpos;
+    if (!strcmp(w[1], "write") && n == 5) {          // raw write <off> <len|fitK> <seed>
+      long len = !strncmp(w[3], "fit", 3) ? room - 20 + atol(w[3] + 3) : atol(w[3]);
+      if (room < 20) len = !strncmp(w[3], "fit", 3) ? (long) wal->bufsz - 20 + atol(w[3] + 3) : len;   // the header will be flushed first
+      if (len < 0) len = 0;
+      uint8_t *vb = malloc(len + 1); mkval(vb, (int) len, (unsigned) atol(w[4]));
+      rc = wal->lsnr.onwrite(&wal->lsnr, (off_t) atoll(w[2]), vb, (off_t) len, 0); free(vb);
+    } else if (!strcmp(w[1], "room") && n == 5) {    // raw room <off> <r> <seed>: a write that leaves exactly r bytes free in the buffer
+      long len = room - 20 - atol(w[3]);
+      if (len < 0) len = 0;
+      uint8_t *vb = malloc(len + 1); mkval(vb, (int) len, (unsigned) atol(w[4]));
+      rc = wal->lsnr.onwrite(&wal->lsnr, (off_t) atoll(w[2]), vb, (off_t) len, 0); free(vb);
+    } else if (!strcmp(w[1], "set") && n == 5) {
+      rc = wal->lsnr.onset(&wal->lsnr, (off_t) atoll(w[2]), (uint8_t) atoi(w[3]), (off_t) atoll(w[4]), 0);
+    } else if (!strcmp(w[1], "copy") && n == 5) {
+      rc = wal->lsnr.oncopy(&wal->lsnr, (off_t) atoll(w[2]), (off_t) atoll(w[3]), (off_t) atoll(w[4]), 0);
+    } else if (!strcmp(w[1], "synced") && n == 2) {
+      rc = wal->lsnr.onsynced(&wal->lsnr, 0);
+    } else { printf("bad-op\n"); free(copy); return; }
+    printf("raw %s", rcname(rc)); tail_status();
   } else if (!strcmp(w[0], "snap") && n == 4 && kv) {   // snap <main> <wal> <buf>: files as they are on disk now + the log buffer
     struct iwal *wal = the_wal();
     long a = copy_file(kvpath, w[1]), b = copy_file(walpath, w[2]);
